@@ -279,6 +279,12 @@ func verifyServerExtensions(copts *compressionOptions, h http.Header) (*compress
 	_copts := *copts
 	copts = &_copts
 
+	// Whether the server keeps its compression context between messages is decided
+	// by its response, not by our offer: a server that answers without
+	// server_no_context_takeover uses context takeover (RFC 7692 section 7.1.1.1),
+	// and we could not decompress what it sends without doing the same.
+	copts.serverNoContextTakeover = false
+
 	for _, p := range ext.params {
 		switch p {
 		case "client_no_context_takeover":
